@@ -122,7 +122,13 @@ def _subst(t, mp):
                 return mp[t]
         except TypeError:
             pass
-        return tuple(_subst(x, mp) for x in t)
+        r = tuple(_subst(x, mp) for x in t)
+        # {..."k": v...}["k"] -> v : indexing a dict display by a constant key
+        if len(r) == 3 and r[0] == "sub" and is_lit(r[1], "dict") and is_const(r[2]):
+            hit = [v for k, v in r[1][2] if k == r[2]]
+            if hit:
+                return hit[-1]
+        return r
     if isinstance(t, frozenset):
         return frozenset(_subst(x, mp) for x in t)
     return t
